@@ -130,6 +130,66 @@ func runToNSQPart(tier string) partResult {
 		}
 	}
 	res.Extra["to_nsq_inputs"] = len(inputs)
+	// a destination that refuses or drops a publish: the tool may end cleanly (io.EOF from
+	// the read loop, exit status 0) only if every record was accepted by every destination
+	var scripts [][]string
+	var genS func(p []string)
+	genS = func(p []string) {
+		if len(p) > 0 {
+			scripts = append(scripts, append([]string{}, p...))
+		}
+		if len(p) == 3 {
+			return
+		}
+		for _, v := range []string{"ok", "err", "close"} {
+			genS(append(append([]string{}, p...), v))
+		}
+	}
+	genS(nil)
+	nFault := 0
+	for _, in := range []string{"a\n", "a", "a\nb\n", "a\nb", "a\nb\nc\n", "a\nb\nc", "\na", "a\n\n"} {
+		for _, vs := range scripts {
+			for _, ndest := range []int{1, 2} {
+				for faulty := 0; faulty < ndest; faulty++ {
+					producers := map[string]*nsq.Producer{}
+					for i := 0; i < ndest; i++ {
+						servers[i].Script(nil)
+						producers[servers[i].Addr()] = prods[i]
+					}
+					servers[faulty].Script(vs)
+					r := bufio.NewReader(bytes.NewReader([]byte(in)))
+					var err error
+					for {
+						err = readAndPublish(r, '\n', producers)
+						if err != nil {
+							break
+						}
+					}
+					res.Evaluations++
+					nFault++
+					want := expectedRecords([]byte(in), '\n')
+					all := true
+					for i := 0; i < ndest; i++ {
+						acc, _ := servers[i].Records()
+						if len(acc) != len(want) {
+							all = false
+						}
+					}
+					if err == io.EOF && !all {
+						if len(res.Found) < 20 {
+							acc0, _ := servers[faulty].Records()
+							res.Found = append(res.Found, vx.Found{Sig: "C20 to_nsq ended cleanly although a record was not accepted by every destination :: to_nsq",
+								Detail: fmt.Sprintf("input %q, %d destination(s), destination %d answers %v: the read loop ended with io.EOF (exit status 0), that destination accepted %q of the records %q", in, ndest, faulty+1, vs, truncs(acc0), truncs(want)),
+								Replay: map[string]interface{}{"kind": "to_nsq", "input": []byte(in), "verdicts": vs}})
+						}
+					}
+					res.Outcomes[fmt.Sprintf("to_nsq faulty destination: clean_end=%v all_accepted=%v", err == io.EOF, all)]++
+					// (a closed connection is re-dialled by the producer on its next publish)
+				}
+			}
+		}
+	}
+	res.Extra["to_nsq_faulty_destination_cases"] = nFault
 	return res
 }
 
@@ -167,7 +227,7 @@ func init() {
 		os.Exit(0)
 	}
 	rep := vx.NewReport("C20", *tier, "fault_enumeration")
-	rep.Rule = "to_nsq: every input over {a, b, delimiter, NUL} up to length N x delimiter {LF, comma, NUL} + records of 4095/4096/4097 bytes with and without a final delimiter, through the real readAndPublish loop and real nsq.Producers into recording nsqd stand-ins (1 and 2 destinations). nsq_to_nsq: every verdict string of length <= 4 over {OK, error frame, close, close before reading, destination down (no live connection, next connect cut off)} x mode {round-robin, hostpool, epsilon-greedy} x destinations {1,2} through the real PublishHandler/responder, source messages with a recording delegate, re-offered after a requeue; plus every filter configuration (--require-json-field x --require-json-value x --whitelist-json-field) x 17 message shapes against a reference filter. nsq_to_http: every status string of length <= 4 over {200,201,204,301,400,404,500,503,close} x {GET,POST} x mode x endpoints {1,2} through the real HandleMessage. distinct = distinct (tool, case class, outcome)"
+	rep.Rule = "to_nsq: every input over {a, b, delimiter, NUL} up to length N x delimiter {LF, comma, NUL} + records of 4095/4096/4097 bytes with and without a final delimiter, through the real readAndPublish loop and real nsq.Producers into recording nsqd stand-ins (1 and 2 destinations), and short inputs x every verdict script of length <= 3 over {OK, error frame, connection closed} on one destination: a clean end only if every record was accepted everywhere. nsq_to_nsq: every verdict string of length <= 4 over {OK, error frame, close, close before reading, destination down (no live connection, next connect cut off)} x mode {round-robin, hostpool, epsilon-greedy} x destinations {1,2} through the real PublishHandler/responder, source messages with a recording delegate, re-offered after a requeue; plus every filter configuration (--require-json-field x --require-json-value x --whitelist-json-field) x 17 message shapes against a reference filter. nsq_to_http: every status string of length <= 4 over {200,201,204,301,400,404,500,503,close} x {GET,POST} x mode x endpoints {1,2} through the real HandleMessage. distinct = distinct (tool, case class, outcome)"
 	rep.Assumptions = []string{"go-nsq turns a nil handler return / Finish() into FIN and an error / Requeue() into REQ", "real loopback sockets, no controlled scheduler: nothing here is scheduling-dependent beyond go-nsq's own request/response pairing"}
 	merge := func(p partResult) {
 		rep.Evaluations += p.Evaluations
